@@ -349,6 +349,21 @@ Fixpoint run_diffs (jobs : list (status * list record)) : status * list (list re
   | (e, out) :: _ => (e, [out])
   end.
 
+(** ** -text-out (cmd/text_out.go withTextOutWriter): every command's report goes through a
+    buffered writer on the target; the target is opened before the command body runs and flushed,
+    synced and closed after it *)
+Inductive textout := ToFile | ToBad | ToFull | ToDiscard.
+(** does the command body run at all: not when the target cannot be opened *)
+Definition textout_runs (to : textout) : bool := match to with ToBad => false | _ => true end.
+(** the command's verdict: a target that cannot be opened fails the command; a target that cannot be
+    written turns success into a failure; a failure of the command itself is kept *)
+Definition textout_status (to : textout) (st : status) : status :=
+  match to with
+  | ToBad => StErr
+  | ToFull => match st with StOk => StErr | s => s end
+  | ToFile | ToDiscard => st
+  end.
+
 (** ** view / view-raw *)
 Definition view_cmd (f : option handle) (aid from until0 now : Z) (show_header : bool) : status * list record :=
   match read_file f aid from (resolve_until until0 now) now with
